@@ -241,4 +241,13 @@ def Expressible : DT → Bool
   | .ts _ _ _ _ _ _ _ off _ => decide (-999 ≤ off) && decide (off ≤ 999)
   | .iv days _ _ _ => decide (0 ≤ days) && decide (days ≤ 99999999)
 
+/-- the constructor argument is something Python can hand over: a datetime / timedelta object that exists
+    (field ranges enforced by Python itself), or a CIMDateTime object that is itself well-formed -/
+def DtArg.valid : DtArg → Bool
+  | .str _ => true
+  | .datetime y mo d h mi s us _ => validDateTime y mo d h mi s us
+  | .timedelta _ secs us => decide (secs < 86400) && decide (us < 1000000)
+  | .cimdt x => WF x
+  | .other => true
+
 end Pywbem.Model.DateTime
